@@ -86,6 +86,9 @@ KERNEL = ["theories/KernelProps.vo", "theories/Enc.vo", "theories/Num.vo"]
 PROP_TARGETS: dict[str, list[str]] = {
     "C03": KERNEL, "C05": KERNEL, "C07": KERNEL, "C08": KERNEL,
     "C19": KERNEL + ["theories/RuleIds.vo", "gen/Rules.vo"],
+    "C01": ["theories/Flatten.vo"],
+    "C02": ["theories/Flatten.vo", "theories/Affine.vo"],
+    "C04": ["theories/Flatten.vo"],
     "C06": ["theories/FormData.vo"],
     "C14": ["theories/Jit.vo", "gen/JitGen.vo"],
     "C15": ["theories/Jit.vo", "gen/JitGen.vo"],
